@@ -163,8 +163,8 @@ def classify_wire(di, c, stored=False):
             return 'reject'
         try:
             c.encode('utf-8')
-        except UnicodeEncodeError:   # lone surrogates can not be transported
-            return 'reject'
+        except UnicodeEncodeError:   # lone surrogates: not valid Unicode, but nothing documented -> not judged
+            return 'either'
         return 'accept'
     if t == 'blob':
         if k != 'str':
